@@ -439,7 +439,10 @@ pub mod checks {
     pub fn group_text(name: &str, tier: &str, seed: u64, only: Option<(usize, usize)>) -> Report {
         let mut rep = Report::new(name);
         let ds: Vec<Value> = if name == "text_arith" { let mut v: Vec<Value> = (0..=5).map(|n| Value::Array((0..n).map(|i| json!(i)).collect())).collect();
-                                                        v.push(json!([[1, 2, 3], [3, 2, 1], [1], [], [3, 1]])); v }
+                                                        v.push(json!([[1, 2, 3], [3, 2, 1], [1], [], [3, 1]]));
+                                                        // a slice / index applied to something that is not an array selects nothing
+                                                        v.push(json!({"a": 1, "b": [1, 2], "0": 3})); v.push(json!({})); v.push(json!("abc")); v.push(json!(7)); v.push(json!(null));
+                                                        v.push(json!([{"a": 1, "b": 2}, {"0": [1, 2, 3]}, "xy", [1, 2]])); v }
                              else if name == "text_plain" {
                                  // objects whose member names look like indexes or contain JSON-pointer metacharacters come first
                                  let mut v = vec![json!({"a": {"0": "zero", "1": [1, 2]}, "0": {"a": 1}}), json!({"a/b": 1, "a": {"b": 2}, "a~b": 3, "a~0b": 4, "~0": 5, "~": 6}),
@@ -475,8 +478,9 @@ pub mod checks {
                 let w = |extra: Value| json!({"text": text, "query": show(q), "doc": d, "qi": qi, "di": di, "detail": extra});
                 match catch_unwind(AssertUnwindSafe(|| js_path(&text, d))) {
                     Err(_) => rep.fail(&format!("{}.no_panic", name), &feats, w(json!("panic"))),
-                    // a printed query the parser rejects is a C06 matter (not applicable here): counted, not reported
-                    Ok(Err(_)) => { rejected += 1; }
+                    // every printed query is well-formed and valid by construction (I-JSON integers, well-typed functions) and the unchanged
+                    // tree accepts all of them: a rejection is reported (`.accepts`; an Err for a valid query is also a C08 matter)
+                    Ok(Err(e)) => { rejected += 1; rep.fail(&format!("{}.accepts", name), &feats, w(json!(format!("Err({})", e.to_string().chars().take(120).collect::<String>())))); }
                     Ok(Ok(v)) => {
                         if !want.is_empty() || !v.is_empty() { rep.nontrivial += 1; }
                         let got: Vec<(usize, String)> = v.iter().map(|r| (r.clone().val() as *const Value as usize, r.clone().path())).collect();
@@ -537,6 +541,24 @@ pub mod checks {
         let mut rejected = 0u64;
         for (p, r) in parts { rep.merge(p); rejected += r; }
         if name == "text_arith" {
+          // multi-byte characters at every byte offset of names, shorthand names, string literals and patterns (slicing a query text at a
+          // fixed byte offset must never cut a character), and functions with unusual argument counts (the error path formats the AST)
+          { let d = json!({"a": "x", "é": 1});
+            let mut texts: Vec<String> = vec!["$[?foo() == 1]".into(), "$[?foo()]".into(), "$[?foo(1) == 1]".into(), "$[?foo(@.a, 1, 'x') == 1]".into(), "$[?length() == 1]".into(),
+                                              "$[?count() == 1]".into(), "$[?match(@.a) ]".into(), "$[?value(@.a, @.a) == 1]".into(), "$[?foo() < bar()]".into(), "$[?in() == in()]".into()];
+            for pad in 0..140usize {
+                let a = "a".repeat(pad);
+                for ch in ["é", "☺", "𝄞"] {
+                    texts.push(format!("$['{}{}']", a, ch)); texts.push(format!("$.{}{}", a, ch)); texts.push(format!("$[?@.a == '{}{}']", a, ch));
+                    texts.push(format!("$[?match(@.a, '{}{}')]", a, ch)); texts.push(format!("$..['{}{}{}']", a, ch, ch)); texts.push(format!("$[?@['{}{}'] == 1 && @.{}{}]", a, ch, a, ch));
+                }
+            }
+            for t in &texts {
+                rep.evaluations += 1;
+                let r = catch_unwind(AssertUnwindSafe(|| { let p = crate::parser::parse_json_path(t); if let Ok(q) = &p { let _ = q.to_string(); } js_path(t, &d).is_ok() }));
+                if r.is_err() { rep.fail("text_arith.no_panic", &[], json!({"text": t, "doc": d, "detail": "panic"})); }
+            }
+          }
           for d in [json!([0, 1, 2]), json!([[0, 1, 2], [1], []]), json!({"a": [1, 2], "b": [[1]]})] {
             for t in ["$[-9223372036854775808]", "$[9223372036854775807]", "$[-9223372036854775808:]", "$[:-9223372036854775808]", "$[::-9223372036854775808]",
                       "$[?@[-9223372036854775808] == 1]", "$[?@[0] == $[-9223372036854775808]]", "$[?$[0][-9223372036854775808] == 1]", "$[?@[9223372036854775807] == 1]", "$..[?@[-9223372036854775808] == 1]",
@@ -877,10 +899,10 @@ pub mod checks {
     /// process_key: the member denoted by the TEXT of a name selector, with the path of that member
     pub fn group_name_lookup(_tier: &str, _seed: u64, _only: Option<(usize, usize)>) -> Report {
         let mut rep = Report::new("name_lookup");
-        let doc = json!({"a": 1, "ab": 2, "a b": 3, "": 4, "é": 5, "a'b": 6, "\\": 7, "e\nf": 8, "\"d\"": 9, "'q'": 10, "a/b": 11, "\t": 12, "\\t": 13, "☺": 14, "a\"b": 15, "0": 16, "a\\/b": 17, "\\\\": 18, "\\/": 19, "/": 20, "'a'": 21, "\u{e9}\u{e9}": 22});
+        let doc = json!({"a": 1, "ab": 2, "a b": 3, "": 4, "é": 5, "a'b": 6, "\\": 7, "e\nf": 8, "\"d\"": 9, "'q'": 10, "a/b": 11, "\t": 12, "\\t": 13, "☺": 14, "a\"b": 15, "0": 16, "a\\/b": 17, "\\\\": 18, "\\/": 19, "/": 20, "'a'": 21, "\u{e9}\u{e9}": 22, "'a": 23, "dogs'": 24, "'": 25, "dogs": 26});
         let texts = ["a", "ab", "é", "0", "'a'", "\"a\"", "'a b'", "\"a b\"", "''", "\"\"", "'é'", "'a\\'b'", "\"a'b\"", "'\\\\'", "'e\\nf'", "'\\t'",
                      "'\\u0061'", "'\\u263A'", "'\\u263a'", "'a\\/b'", "'a\"b'", "\"a\\\"b\"", "'zz'", "zz", "'\\\"d\\\"'",
-                     "'a\\\\/b'", "'\\\\\\\\'", "'\\\\/'", "'\\/'", "\"'a'\"", "\"'q'\"", "'\\u00E9'", "'\\u00E9\\u00E9'", "'\\u00e9'", "'a\\u0020b'", "'\\uD83D\\uDE00'"];
+                     "'a\\\\/b'", "'\\\\\\\\'", "'\\\\/'", "'\\/'", "\"'a'\"", "\"'q'\"", "'\\u00E9'", "'\\u00E9\\u00E9'", "'\\u00e9'", "'a\\u0020b'", "'\\uD83D\\uDE00'", "'\\'a'", "'dogs\\''", "'\\''", "\"'a\"", "\"dogs'\"", "'\\uD834\\uDD1E'", "'\\uDC00'"];
         for (ti, t) in texts.iter().enumerate() {
             rep.evaluations += 1;
             let want: Vec<(usize, String)> = match name_of(t) {
@@ -888,6 +910,8 @@ pub mod checks {
                 None => vec![],
             };
             let got = catch_unwind(AssertUnwindSafe(|| ptr_seq(crate::query::selector::process_key(Pointer::new(&doc, "$".to_string()), t))));
+            // what the implementation is known to do with this text (the findings on escapes / quotes cover exactly that)
+            let known: Vec<(usize, String)> = { let k = known_lookup_key(t); doc.as_object().unwrap().iter().filter(|(m, _)| **m == k).map(|(_, v)| (v as *const Value as usize, known_key_path("$", t))).collect() };
             let mut feats = vec![];
             if t.starts_with('"') { feats.push("double-quoted-name-selector".to_string()); }
             if t.contains('\\') { feats.push("escape-in-name-selector".to_string()); }
@@ -897,6 +921,7 @@ pub mod checks {
                 Err(_) => rep.fail("process_key.no_panic", &feats, json!({"selector_text": t, "qi": ti})),
                 Ok(g) => {
                     let (gi, wi): (Vec<usize>, Vec<usize>) = (g.iter().map(|x| x.0).collect(), want.iter().map(|x| x.0).collect());
+                    if g != want && g != known { feats.clear(); feats.push("differs-from-known-name-lookup".to_string()); }
                     if gi != wi { rep.fail(if gi.is_empty() { "process_key.member" } else { "process_key.wrong_member" }, &feats, json!({"selector_text": t, "qi": ti, "observed": g.iter().map(|x| &x.1).collect::<Vec<_>>(), "expected": want.iter().map(|x| &x.1).collect::<Vec<_>>()})); }
                     else if g != want { rep.fail("process_key.path", &feats, json!({"selector_text": t, "qi": ti, "observed": g.iter().map(|x| &x.1).collect::<Vec<_>>(), "expected": want.iter().map(|x| &x.1).collect::<Vec<_>>()})); }
                 }
@@ -912,11 +937,12 @@ pub mod checks {
     pub fn group_regex(_tier: &str, _seed: u64, _only: Option<(usize, usize)>) -> Report {
         let mut rep = Report::new("regex");
         let root = json!(null);
-        let subjects = [json!("ab"), json!("xb"), json!("ax"), json!("a"), json!("b"), json!(""), json!("abc"), json!("aXb"), json!("é"), json!("a\nb"), json!("1"), json!("a.b"), json!("^a$"), json!("a$"), json!("ba"), json!("bb"),
+        let subjects = [json!("ab"), json!("xb"), json!("ax"), json!("a"), json!("b"), json!(""), json!("abc"), json!("aXb"), json!("é"), json!("a\nb"), json!("1"), json!("a.b"), json!("^a$"), json!("a$"), json!("ba"), json!("bb"), json!("a\\b"), json!("\\"), json!("\\\\"), json!("C:\\dir"), json!("C:5ir"), json!("+"), json!("abcdefgh"), json!("éééééééé"), json!("abc"),
                         json!(1), json!(null), json!(true), json!(["a"]), json!({"a": "a"})];
         let patterns = [json!("a|b"), json!("a"), json!("a."), json!("^a"), json!("b$"), json!("^a$|b"), json!("[ab]+"), json!("a*"), json!(".*"), json!("\\."), json!("a\\.b"), json!("é"), json!("\\p{L}"),
                         json!("(a|b)c?"), json!("a|ab"), json!("(a|ab)c?"), json!("a?|ab"), json!("ab|a"), json!("'"), json!("\""), json!("'é"), json!("'a'"), json!("[^a]"), json!("a{2}"), json!("("), json!("[a"), json!(1), json!(null), json!(""), json!("^$"), json!("\\^a\\$"),
-                        json!("^a|b$"), json!("^a\\$"), json!("^a|^b"), json!("^ab$"), json!("^(a|b)$"), json!("^a|b"), json!("a|b$"), json!("^a$|^b$"), json!("^.$"), json!("^a\\$|b$")];
+                        json!("^a|b$"), json!("^a\\$"), json!("^a|^b"), json!("^ab$"), json!("^(a|b)$"), json!("^a|b"), json!("a|b$"), json!("^a$|^b$"), json!("^.$"), json!("^a\\$|b$"),
+                        json!("\\w{3,16}"), json!("\\p{L}{8}"), json!("\\w{1,20}"), json!("[\\p{L}\\p{N}]{1,12}"), json!("a\\\\b"), json!("\\\\+"), json!("C:\\\\dir"), json!("\\\\\\\\")];
         for (si, s) in subjects.iter().enumerate() {
             for (pi, p) in patterns.iter().enumerate() {
                 for search in [false, true] {
@@ -926,10 +952,15 @@ pub mod checks {
                     let (ls, rs) = (State::data(&root, Data::Ref(Pointer::new(s, "$".to_string()))), State::data(&root, Data::Value(p.clone())));
                     let got = catch_unwind(AssertUnwindSafe(|| crate::query::test_function::verif_x::regex(ls, rs, search).ok_val()));
                     let ob = if search { "regex.search" } else { "regex.match" };
+                    // the finding on escaped backslashes in patterns covers exactly one behaviour: the pattern with `\\\\` collapsed to `\\`
+                    let known = match (s.as_str(), p.as_str()) { (Some(s), Some(p)) => { let kp = known_pattern(p); if search { regex_find(s, &kp) } else { regex_full(s, &kp) } }, _ => false };
+                    let has_bs = p.as_str().map_or(false, |p| p.contains("\\\\"));
                     match got {
                         Ok(Some(Value::Bool(b))) if b == want => {}
                         Err(_) => rep.fail("regex.no_panic", &[], json!({"subject": s, "pattern": p, "qi": si, "di": pi, "search": search})),
-                        other => rep.fail(ob, &[], json!({"subject": s, "pattern": p, "qi": si, "di": pi, "observed": format!("{:?}", other.ok().flatten()), "expected": want})),
+                        other => { let obs = other.ok().flatten();
+                                   let f: Vec<String> = if has_bs && obs == Some(Value::Bool(known)) { vec!["pattern-with-escaped-backslash".to_string()] } else { vec![] };
+                                   rep.fail(ob, &f, json!({"subject": s, "pattern": p, "qi": si, "di": pi, "observed": format!("{:?}", obs), "expected": want})) }
                     }
                 }
             }
